@@ -113,7 +113,8 @@ def builtin_no_float(nd: int, use_nd: bool) -> None:
 
 
 POOL = ['0.1', '0.2', '0.3', '1', '3', '7', '0.7', '2.675', '1.10', '10000000000000000000000000001', '9007199254740993',
-        '0.000000000000000000000000000001']
+        '0.000000000000000000000000000001', '9999999999999999999999999998', '0.5', '3000000000000000000000000001',
+        '0.0000000000000000000000000005', '9999999999999999999999999999', '1.5']
 
 
 def _round28(fr):
@@ -138,12 +139,20 @@ def _round28(fr):
 
 def arithmetic_exact(i: int, j: int, neg: bool) -> None:
     """
-    pre: 0 <= i < 12 and 0 <= j < 12
+    pre: 0 <= i < 18 and 0 <= j < 18
     post: True
     """
     hlib.enter(locals())
     op = hlib.PARAM["op"]
-    a, b = POOL[hlib.concrete(i, 0, 11)], POOL[hlib.concrete(j, 0, 11)]
+    i, j, neg = hlib.concrete(i, 0, 17), hlib.concrete(j, 0, 17), (True if neg else False)
+    with hlib.native():
+        ok, msg = _exact_case(op, i, j, neg)
+    assert ok, msg
+    hlib.done()
+
+
+def _exact_case(op, i, j, neg):
+    a, b = POOL[i], POOL[j]
     text = ("-" if neg else "") + a + " " + op + " " + b
     out = run_eval(text, {}, 100, parser=PARSER)
     fa, fb = Fraction(a), Fraction(b)
@@ -151,12 +160,10 @@ def arithmetic_exact(i: int, j: int, neg: bool) -> None:
         fa = _round28(-fa)          # unary minus is itself an operation under the 28-digit context
     if op in ('+', '-', '*', '/'):
         exact = {'+': fa + fb, '-': fa - fb, '*': fa * fb, '/': fa / fb}[op]
-        assert out[0] == 'ok' and Fraction(out[1]) == _round28(exact), \
+        return (out[0] == 'ok' and Fraction(out[1]) == _round28(exact)), \
             "%s is not the exact result correctly rounded (half-even) to 28 significant digits" % text
-    else:
-        exact = {'==': fa == fb, '<': fa < fb, '>': fa > fb, '<=': fa <= fb, '>=': fa >= fb, '!=': fa != fb}[op]
-        assert out[0] == 'ok' and out[1] is exact, "%s disagrees with exact rational order" % text
-    hlib.done()
+    exact = {'==': fa == fb, '<': fa < fb, '>': fa > fb, '<=': fa <= fb, '>=': fa >= fb, '!=': fa != fb}[op]
+    return (out[0] == 'ok' and out[1] is exact), "%s disagrees with exact rational order" % text
 
 
 def known_identity(x: int) -> None:
@@ -170,3 +177,48 @@ def known_identity(x: int) -> None:
     c = getcontext()
     assert c.prec == 28 and c.rounding == ROUND_HALF_EVEN
     hlib.done()
+
+
+CH = ['1', '3', '7', '6', '0.7', '1.5']
+HEADS = ['(1/{x})', '-(1/{x})', 'abs(1/{x})', 'hostval', '({x})']
+
+
+def _apply(op, x, y):
+    return _round28({'+': x + y, '-': x - y, '*': x * y, '/': x / y}[op])
+
+
+def arithmetic_chain(hi: int, i: int, j: int, k: int) -> None:
+    """
+    pre: 0 <= hi < 5 and 0 <= i < 6 and 0 <= j < 6 and 0 <= k < 6
+    post: True
+    """
+    # head o1 b o2 c: every operation is rounded on its own, in the order the operator table prescribes (no re-association)
+    hlib.enter(locals())
+    o1, o2 = hlib.PARAM["o1"], hlib.PARAM["o2"]
+    hi, i, j, k = hlib.concrete(hi, 0, 4), hlib.concrete(i, 0, 5), hlib.concrete(j, 0, 5), hlib.concrete(k, 0, 5)
+    with hlib.native():
+        ok, text = _chain_case(hi, i, j, k, o1, o2)
+    assert ok, "%s: operations are not each rounded half-even to 28 digits in the prescribed order" % text
+    hlib.done()
+
+
+def _chain_case(hi, i, j, k, o1, o2):
+    x, b, c = CH[i], CH[j], CH[k]
+    head = HEADS[hi].format(x=x)
+    text = "%s %s %s %s %s" % (head, o1, b, o2, c)
+    fx = Fraction(x)
+    if hi in (0, 1, 2):
+        h = _round28(Fraction(1) / fx)
+        if hi == 1:
+            h = -h
+    else:
+        h = fx
+    fb, fc = Fraction(b), Fraction(c)
+    hi_prec = lambda o: o in ('*', '/')
+    if hi_prec(o2) and not hi_prec(o1):
+        exact = _apply(o1, h, _apply(o2, fb, fc))
+    else:
+        exact = _apply(o2, _apply(o1, h, fb), fc)
+    names = {'hostval': RealDecimal(x)}      # (built natively: under the tracer Decimal(...) is CrossHair's model class)
+    out = run_eval(text, names, 100, parser=PARSER)
+    return (out[0] == 'ok' and Fraction(out[1]) == exact), text
